@@ -6,7 +6,7 @@ ADDED = {
            '(w["g"], w.h) leave it unchanged and evaluate twice alike.',
     'C02': 'Rounds 3-4: sub-check facet_forms (v^T M u and b^T v of facet forms for nodal interpolants of polynomials = exact rational '
            'facet integrals, also on meshes mixing affine and general cells); unions of overlapping named subdomains; subset bases '
-           'derived with with_element; sharp integration orders on the (affine) prisms; rigid motions scaled with the mesh.',
+           'derived with with_element; sharp integration orders on the (affine) prisms; rigid motions scaled with the mesh. Round 6: monomials up to degree 5 (quick) / 6 (thorough) on three-dimensional cells.',
     'C03': 'Rounds 3-4: committed coverage replays for hierarchical quadrilateral elements of degree 5 and 6 on shifted cells. Round 5b: connectivity of unsigned dtype in the shared mesh builder; a globally defined element instance that has served on a sibling mesh sharing the coordinate array; degree-aware conditioning yardstick for ElementGlobal.',
     'C04': 'Rounds 3-4: the location table is single-valued for EVERY element (not only nodal ones); sub-check special: periodic tensor '
            'meshes glued in one, two or three directions and CompositeBasis of two to four bases (numbers 0..N-1 all used, N as counted, '
@@ -14,7 +14,7 @@ ADDED = {
            'come from adaptive refinement.',
     'C05': 'Rounds 3-4: complex systems; prescribed values and data in small units (2^-30).',
     'C06': 'Rounds 3-4: assembly piece by piece over equally large cell sets; hierarchical elements up to p = 5 with full-degree solutions; '
-           'Dirichlet set built with the union operator of views; keyword projection on closed facet sets.',
+           'Dirichlet set built with the union operator of views; keyword projection on closed facet sets. Round 5b: mesh objects that have served before (tables read, oriented/refined/translated copies derived and dropped); for vertex-based spaces the unknowns taken from mesh.interior_nodes().',
     'C07': 'Rounds 3-4: the deprecated dictionary form with filters; cells selected by a name given on a coarser mesh and carried through '
            'refined(k) (the selection it must stand for is found with a geometric parent map).',
     'C08': 'Rounds 3-4: sub-check high_orders: orders 64..300 (400) on the segment and 64, 200 on the quadrilateral judged with shifted '
